@@ -960,8 +960,6 @@ func cycleAvoiding(fn *ssa.Function, avoid *ssa.BasicBlock) *ssa.BasicBlock {
 	return found
 }
 
-
-
 // ---------------------------------------------------------------------------
 // R-FRESH-VARS (C01): every clause activation gets its own, freshly numbered variable frame.
 
@@ -1434,4 +1432,67 @@ func ruleCutRebase(c *Ctx, r *Report) {
 		r.bad(rule, fname(exec)+"/no-cut-thunk", c.Pos(exec.Pos()), "after a cut the body continues with the cut's own promise as barrier", "no resumption of the body inside a cut thunk found")
 	}
 	r.analysed(rule, fname(exec))
+}
+
+// ---------------------------------------------------------------------------
+// R-CONTROL-STATELESS (C03, C04; added after seed C04b): the state of a control construct lives on the
+// promise stack and in the environment, both of which backtracking restores. A Go variable captured by the
+// closures of catch/3, call/N or \+/1 and written from inside them is state that backtracking does NOT
+// restore: once set by one solution it stays set when the goal is re-entered (a flag "the goal has exited"
+// makes catch/3 decline the exceptions of every later solution). The closures of the control constructs
+// write no captured variable; the solution counters/collectors of call_nth/2 and findall/3 are the
+// confirmed accumulators and the only ones.
+
+var controlStateless = map[string]map[string]string{
+	"Catch": nil, "Call": nil, "callN": nil, "Negate": nil, "Throw": nil, "Repeat": nil,
+	"Call1": nil, "Call2": nil, "Call3": nil, "Call4": nil, "Call5": nil, "Call6": nil, "Call7": nil,
+	"CallNth": {"n": "the solution counter of call_nth/2: counting across backtracking is its purpose", "err": "overflow flag of the same counter"},
+	"FindAll": {"answers": "the collector of findall/3: it must survive the failure-driven loop"},
+}
+
+func ruleControlStateless(c *Ctx, r *Report) {
+	const rule = "R-CONTROL-STATELESS"
+	desc := "the closures of a control construct write no captured Go variable (state that backtracking cannot restore)"
+	n := 0
+	var names []string
+	for name := range controlStateless {
+		names = append(names, name)
+	}
+	sort.Strings(names)
+	for _, name := range names {
+		top := c.fn(name)
+		if top == nil {
+			r.undecided(rule, "anchor:"+name, "-", "locate "+name, "not found")
+			continue
+		}
+		allowed := controlStateless[name]
+		writes := 0
+		for _, f := range withAnon(top) {
+			if f == top {
+				continue
+			}
+			eachInstr(f, func(in ssa.Instruction) {
+				st, ok := in.(*ssa.Store)
+				if !ok {
+					return
+				}
+				fv, ok := st.Addr.(*ssa.FreeVar)
+				if !ok {
+					return
+				}
+				writes++
+				key := fmt.Sprintf("%s/%s", fname(f), fv.Name())
+				if why, ok := allowed[fv.Name()]; ok {
+					r.ok(rule, key, c.at(in), desc, "confirmed accumulator: "+why, false)
+				} else {
+					r.bad(rule, key, c.at(in), desc, "the captured variable "+fv.Name()+" is written inside a closure of "+name+": it keeps its value when the goal is re-entered on backtracking")
+				}
+			})
+		}
+		n++
+		if writes == 0 {
+			r.ok(rule, fname(top)+"/no-captured-write", c.Pos(top.Pos()), desc, fmt.Sprintf("%d closures, none writes a captured variable", len(withAnon(top))-1), true)
+		}
+	}
+	r.analysed(rule, fmt.Sprintf("%d control constructs", n))
 }
